@@ -182,3 +182,13 @@ LATEST_VER = VER_3_0
 OFFICIAL_VERSIONS = set([
     VER_2_0, VER_3_0
 ])
+
+
+def pre_3_0(version):
+    """
+    True if grids of the given version cannot carry the Project Haystack 3.0
+    types (NA, lists, dicts, grids, XStr).  Versions other than the official
+    ones are judged by the nearest official version, as Grid and the ZINC
+    grammar selection do.
+    """
+    return Version.nearest(version) < VER_3_0
